@@ -15,7 +15,7 @@ RULE = ("dimension lists as C02 (0..4 dims, one/two/three-axis, any commons, inf
         "weights none / scalar / array / (values, validity), zeros included; both missing-value policies; dense arrays "
         "handed to xcube as int64 and as the unsigned dtype to_array produces. Dyadic stream (k/8 values): every float64 "
         "operation of the real code is exact, compared EXACTLY with the direct Fraction group-by and with the Lean model; "
-        "wide stream: 1-2 dims whose extent / product of extents straddles 2^8 (thorough: 2^16); general stream (arbitrary doubles): tolerance 1e-9 x grand total, missing cells exactly. Non-trivial = >=1 dim and "
+        "wide stream: 1-2 dims whose extent / product of extents straddles 2^8 (thorough: 2^16); general stream (arbitrary doubles): tolerance 1e-9 x grand total, missing cells exactly; every fourth case one long-lived ccube object serves all aggregates while its dimensions are re-normalised in place between them. Non-trivial = >=1 dim and "
         ">=1 row; distinct by (dims, fact, weights, policy, aggregate)")
 ASSUMPTIONS = ["float64 sums/products of the dyadic stream are exact (bounded magnitude, N <= 40)",
                "float rounding on the general stream is within 1e-9 of the grand total"]
@@ -64,10 +64,19 @@ def check(ctx, case, reqs, pend, shape_mode="inferred"):
     shape = None
     if dense and shape_mode == "explicit":
         shape = tuple(int(e) + ctx.rng.choice([0, 1]) for e in case["extents"])
+    # a long-lived cube: one ccube object serves every aggregate, and between two aggregates one of its dimensions is
+    # re-normalised in place (shift_common, as append() does) — it is still the index cube of the same dimensions
+    live = bool(case.get("live")) and bool(dense)
+    live_cc = ccube(idxs, interacting_shape=shape) if live else None
     for func in A.FUNCS:
-        if func == "count" and not dense and case["weights"] is None:
-            pass
+        if live and func != A.FUNCS[0]:
+            j = ctx.rng.randrange(len(idxs))
+            if len(idxs[j].shape) <= 2:
+                idxs[j].shift_common(ctx.rng.randrange(0, max(1, int(case["extents"][j]))))
+                ctx.hit("live_cube_reencoded")
         desc = A.small_desc(case, {"func": func, "shape": shape})
+        if live:
+            desc["live_cube"] = True
         ctx.case(desc, nontrivial=bool(dense) and N > 0)
         ctx.hit("func:" + func)
         ctx.hit("weights:" + ("none" if case["weights"] is None else case["weights"][0]))
@@ -77,7 +86,7 @@ def check(ctx, case, reqs, pend, shape_mode="inferred"):
         ret = ("pair", 0)
         # ---- the real code ---------------------------------------------------
         try:
-            cc = ccube(idxs, interacting_shape=shape)
+            cc = live_cc if live else ccube(idxs, interacting_shape=shape)
             cv, cm = A.call(cc, func, case, ret)
         except Exception as e:
             ctx.oracle_fail("ccube.%s raised %s: %s" % (func, type(e).__name__, str(e)[:100]), desc, cls="C03-ccube-raises")
@@ -166,9 +175,10 @@ def run(ctx):
         check(ctx, base, reqs, pend)
     ctx.exhaustive.append("dims: all lists of <=2 one-axis dims, N<=3, values<2, every common (1/6 per seed in quick); "
                           "facts/weights drawn from {0, 1/2, 1, missing}")
-    for _ in range(ctx.n(60)):
+    for it in range(ctx.n(60)):
         case = A.gen_case(ctx.rng, multi_axis=ctx.rng.random() < 0.35)
-        check(ctx, case, reqs, pend, shape_mode=ctx.rng.choice(["inferred", "explicit"]))
+        case["live"] = it % 4 == 1
+        check(ctx, case, reqs, pend, shape_mode="explicit" if case["live"] else ctx.rng.choice(["inferred", "explicit"]))
     for _ in range(ctx.n(15)):
         case = A.gen_case(ctx.rng, multi_axis=False, general=True)
         if _ % 3 == 2:
